@@ -1,0 +1,20 @@
+//go:build verif
+
+// Contracts (property C14 / C10) for the conversions the //seq dispatch wrappers use. Comments only;
+// read by /verif/engine (govc). Owner: worker w-c14.
+package tools
+
+//@ func ValueAsString(v)
+//@   tags C10, C14
+//@   assigns nothing
+//@   returns (s, is)
+//@   ensures is: is == (v is rel.String || v is rel.EmptySet)
+//@   ensures empty: !(v is rel.String) ==> len(s) == 0
+
+//@ func ValueAsBytes(v)
+//@   tags C10, C14
+//@   assigns nothing
+//@   returns (b, is)
+//@   ensures is: is == (v is rel.Bytes || v is rel.EmptySet)
+//@   ensures same: v is rel.Bytes ==> b == v.(rel.Bytes).b
+//@   ensures empty: !(v is rel.Bytes) ==> len(b) == 0 && b == nil
